@@ -434,7 +434,7 @@ func (p *Prog) classifyNamed(fn *ssa.Function, f *types.Var, ss []execStore, ent
 			// every caller defers the result at once
 			bad := p.callersNotDeferring(fn)
 			if len(bad) == 0 {
-				sc.Class, sc.OK, sc.Detail = "restorer-helper", true, "returns a closure restoring the saved value; every call site defers it immediately"
+				sc.Class, sc.OK, sc.Detail = "restorer-helper", true, "returns a closure restoring the saved value; every call site defers it immediately or calls it on every path to a return"
 			} else {
 				sc.Class, sc.Detail = "restorer-helper", "call site does not defer the returned restorer immediately: "+strings.Join(bad, "; ")
 			}
@@ -528,12 +528,53 @@ func (p *Prog) callersNotDeferring(helper *ssa.Function) []string {
 				good = true
 			}
 		}
+		if !good && calledOnEveryExit(call) {
+			good = true
+		}
 		if !good {
 			bad = append(bad, fnName(e.Caller.Func)+" at "+p.pos(call.Pos()))
 		}
 	}
 	sort.Strings(bad)
 	return bad
+}
+
+// calledOnEveryExit: the function value returned by call is invoked on every
+// path from the call to every return of the enclosing function, and is used
+// for nothing else (explicit `restore := helper(); …; restore()`).
+func calledOnEveryExit(call *ssa.Call) bool {
+	for _, r := range *call.Referrers() {
+		c, ok := r.(*ssa.Call)
+		if !ok || c.Call.Value != ssa.Value(call) {
+			return false // stored, passed on, deferred conditionally …
+		}
+	}
+	seen := map[*ssa.BasicBlock]bool{}
+	ok := true
+	var walk func(b *ssa.BasicBlock, from int)
+	walk = func(b *ssa.BasicBlock, from int) {
+		for i := from; i < len(b.Instrs); i++ {
+			switch x := b.Instrs[i].(type) {
+			case *ssa.Call:
+				if x.Call.Value == ssa.Value(call) {
+					return // restored on this path
+				}
+			case *ssa.Return:
+				ok = false
+				return
+			case *ssa.Panic:
+				return
+			}
+		}
+		for _, s := range b.Succs {
+			if !seen[s] {
+				seen[s] = true
+				walk(s, 0)
+			}
+		}
+	}
+	walk(call.Block(), instrIndex(call.Block(), call)+1)
+	return ok
 }
 
 // exitsWithoutRestore: forward dataflow "field is dirty" from the mutating
